@@ -1526,7 +1526,6 @@ int MDSDRV_Converter::get_envelope(int mapped_id)
 //! Creates a MDSDRV_Linker
 MDSDRV_Linker::MDSDRV_Linker()
 	: data_bank()
-	, data_offset()
 	, seq_bank()
 	, wave_rom(0x3f8000, 0x8000)
 {
@@ -1660,6 +1659,9 @@ std::vector<uint8_t> MDSDRV_Linker::get_seq_data()
 {
 	int header_size = 12 + get_seq_count() * 4;
 	auto data = std::vector<uint8_t>(header_size);
+	// offsets of the data bank entries in this layout (rebuilt on every call: the
+	// layout depends on the number of songs)
+	std::vector<int> data_offset;
 
 	// sdtop - 0
 	int offset = header_size - 8;
@@ -1687,13 +1689,15 @@ std::vector<uint8_t> MDSDRV_Linker::get_seq_data()
 		for(auto&& seq : group.second)
 		{
 			printf("put seq %02x (%s.%s) at %04x\n", id, group.first.c_str(), seq.filename.c_str(), offset);
+			// relocate a copy, the stored song stays as it was added
+			auto seq_data = seq.data;
 			for(auto&& j : seq.patch_table)
 			{
-				write_be16(seq.data, j.first, data_offset[j.second & 0x7fff] | (j.second & 0x8000));
+				write_be16(seq_data, j.first, data_offset[j.second & 0x7fff] | (j.second & 0x8000));
 			}
-			data.insert(data.end(), seq.data.begin(), seq.data.end());
+			data.insert(data.end(), seq_data.begin(), seq_data.end());
 			write_be32(data, 8 + (id * 4), offset);
-			offset += seq.data.size();
+			offset += seq_data.size();
 			if(offset & 1)
 			{
 				data.push_back(0);
